@@ -67,9 +67,9 @@ Inductive policy :=
 | PPython                         (* Python()            getattr_python / setattr_python *)
 | PAny (d : Z)                    (* Any(d)              getattr_trait / setattr_trait, no validator *)
 | PDisallow                       (* Disallow            getattr_disallow / setattr_disallow *)
-| PReadOnly                       (* ReadOnly            getattr_trait / setattr_readonly, default Undefined *)
+| PReadOnly (d : Z)               (* ReadOnly / ReadOnly(d): getattr_trait / setattr_readonly; d = Undefined unless given *)
 | PConstant (c : Z)               (* Constant(c)         getattr_constant / setattr_constant *)
-| PEvent                          (* Event()             getattr_event / setattr_event *)
+| PEvent (k : option vkind)       (* Event() / Event(Int): getattr_event / setattr_event, optional validator *)
 | PTyped (k : vkind) (d : Z).     (* Int(d) / Str(d)     getattr_trait / setattr_trait with validator *)
 
 (* ---------- insertion-ordered dictionaries (Python dict) ---------- *)
@@ -155,7 +155,7 @@ Definition n_trait_modified : name := [116;114;97;105;116;95;109;111;100;105;102
 (* class 0 HasTraits (l.1054 and the two events), 1 HasStrictTraits (l.3462),
    2 HasPrivateTraits (l.3529, 3532) *)
 Definition roots : list classdef :=
-  [ mkClass [(n_traits_cache__, PAny VNone); (n_trait_added, PEvent); (n_trait_modified, PEvent)] [];
+  [ mkClass [(n_traits_cache__, PAny VNone); (n_trait_added, PEvent None); (n_trait_modified, PEvent None)] [];
     mkClass [([US], PDisallow)] [0%nat];
     mkClass [([US; US], PAny VNone); ([US], PDisallow)] [0%nat] ].
 
@@ -208,11 +208,10 @@ Section Object.
   Definition getattr (s : state) (n : name) (p : policy) : state * obs :=
     match p with
     | PPython => out s n (Raise AttributeError)                 (* getattr_python: GenericGetAttr *)
-    | PAny d | PTyped _ d =>                                    (* getattr_trait l.1978-1984: default stored *)
+    | PAny d | PTyped _ d | PReadOnly d =>                      (* getattr_trait l.1978-1984: default stored *)
         out (set_od s (aset n d (s_od s))) n (Val d)
-    | PReadOnly => out (set_od s (aset n VUndef (s_od s))) n (Val VUndef)
     | PDisallow => out s n (Raise AttributeError)               (* getattr_disallow *)
-    | PEvent => out s n (Raise AttributeError)                  (* getattr_event *)
+    | PEvent _ => out s n (Raise AttributeError)                (* getattr_event *)
     | PConstant c => out s n (Val c)                            (* getattr_constant *)
     end.
 
@@ -228,8 +227,17 @@ Section Object.
              end
     | PDisallow => out s n (Raise TraitError)
     | PConstant _ => out s n (Raise TraitError)
-    | PEvent => out s n Done                                    (* setattr_event: nothing stored *)
-    | PReadOnly =>                                              (* setattr_readonly l.2896-2902 *)
+    | PEvent k =>                                               (* setattr_event l.2345-2352: nothing stored *)
+        match k with
+        | None => out s n Done
+        | Some k' => match validate k' v with
+                     | Some _ => out s n Done
+                     | None => out s n (Raise TraitError)
+                     end
+        end
+    | PReadOnly d =>                                            (* setattr_readonly l.2884-2902 *)
+        if negb (Z.eqb d VUndef) then out s n (Raise TraitError)     (* l.2884: a default was given *)
+        else
         match assoc n (s_od s) with
         | None => out (set_od s (aset n v (s_od s))) n Done
         | Some w => if Z.eqb w VUndef then out (set_od s (aset n v (s_od s))) n Done
@@ -245,8 +253,8 @@ Section Object.
     | PAny _ | PTyped _ _ => out (set_od s (adel n (s_od s))) n Done   (* setattr_trait l.2391-2405 *)
     | PDisallow => out s n (Raise TraitError)
     | PConstant _ => out s n (Raise TraitError)
-    | PReadOnly => out s n (Raise TraitError)                   (* delete_readonly_error *)
-    | PEvent => out s n Done                                    (* setattr_event, value == NULL *)
+    | PReadOnly _ => out s n (Raise TraitError)                 (* delete_readonly_error *)
+    | PEvent _ => out s n Done                                  (* setattr_event, value == NULL *)
     end.
 
   (* has_traits_setattro l.649-665: instance dict, class dict, prefix trait *)
@@ -326,3 +334,24 @@ Definition staged_tables (h1 : list classdef) (k : nat) (pre : list op) (h2 : li
   let T1 := tables h1 in
   let t := tabs_nth T1 k in
   tables_from (set_ctab T1 k (s_ctd (final_state (snd t) (init_state (fst t)) pre))) h2.
+
+(* ---------- two instances of one class, operations interleaved ----------
+   Both share type(obj).__class_traits__ (with its cache); each has its own instance
+   traits and its own __dict__.  [w] = true selects the second instance. *)
+Definition inst := (list (name * policy) * list (name * Z))%type.
+Definition state2 := (ctab * inst * inst)%type.
+
+Definition step2 (pt : ptab) (s : state2) (w : bool) (o : op) : state2 * obs :=
+  let '(ctd, a, b) := s in
+  let me := if w then b else a in
+  let '(s', ob) := step pt (mkState ctd (fst me) (snd me)) o in
+  let me' := (s_itd s', s_od s') in
+  ((s_ctd s', if w then a else me', if w then me' else b), ob).
+
+Fixpoint run2 (pt : ptab) (s : state2) (ops : list (bool * op)) : list (bool * op * obs) :=
+  match ops with
+  | [] => []
+  | (w, o) :: r => let '(s', ob) := step2 pt s w o in (w, o, ob) :: run2 pt s' r
+  end.
+
+Definition init_state2 (ct : ctab) : state2 := (ct, ([], []), ([], [])).
